@@ -126,6 +126,10 @@ func runC18(c *Ctx) {
 	ruleNoStaleFieldSnapshot(c, "R18.e")
 	ruleFullPrecisionNumbers(c, "R18.f")
 	ruleStoreIndexSafety(c, "R18.g")
+	ruleHandlersAnswer(c, "R18.h")
+	// "values come back byte-for-byte": an empty value stays empty, it does not become the null reply
+	rulePayloadStores(c, "R18.i")
+	ruleIsNilMeansNull(c, "R18.i")
 
 	rid = "R18.c"
 	c.rule(rid, "the example handlers Set and HSet store the value parameter itself (no transformation) into the record / hash")
@@ -514,4 +518,109 @@ func returnsResliceOf(h *ssa.Function, i int) bool {
 		}
 	}
 	return false
+}
+
+// ruleHandlersAnswer: a handler of the bundled store never returns (nil, nil). The framework
+// derives commands from handler calls and uses their results (INCR reads what Get returned): a
+// missing message with a nil error is dereferenced there, the panic is swallowed by the
+// connection barrier, and the request — with everything pipelined behind it — gets no reply.
+func ruleHandlersAnswer(c *Ctx, rid string) {
+	c.rule(rid, "every return of a command-handler method of the example server (exported method with the connection as first parameter returning (*redis.Message, error)) carries a message that is not nil on that path, or a non-nil error")
+	n, bad := 0, 0
+	for _, fn := range c.P.RepoFuncs(pkgExSrv) {
+		if fn.Signature.Recv() == nil || fn.Object() == nil || !fn.Object().Exported() || fn.Blocks == nil {
+			continue
+		}
+		res := fn.Signature.Results()
+		if res.Len() != 2 || !strings.HasSuffix(res.At(0).Type().String(), ".Message") || !isErrorType(res.At(1).Type()) {
+			continue
+		}
+		if fn.Signature.Params().Len() < 1 || !strings.HasSuffix(fn.Signature.Params().At(0).Type().String(), "redis.Conn") {
+			continue
+		}
+		n++
+		c.analysed(fn)
+		for i, r := range returnsOf(fn) {
+			if len(r.Results) != 2 || !isNilConst(retOperand(r, 1)) {
+				if !mayBeNilError(retOperand(r, 1)) {
+					continue
+				}
+			}
+			if w := mayBeNilMessage(retOperand(r, 0), r.Block(), 0, map[ssa.Value]bool{}); w != "" {
+				bad++
+				c.bad(rid, fmt.Sprintf("ex.%s/return#%d", fn.Name(), i), c.P.instrPos(r), "the handler can return no message and no error ("+w+"): commands the framework derives from this handler dereference the missing message, and the request is never answered")
+			}
+		}
+	}
+	c.count("example-handler-methods", n)
+	c.floor("example-handler-methods", 24)
+	if bad == 0 {
+		c.ok(rid, "handlers-always-answer", "", fmt.Sprintf("%d handler methods; none can return (nil, nil)", n))
+	}
+}
+
+// mayBeNilError: the error operand is nil on this return (constant nil).
+func mayBeNilError(v ssa.Value) bool { return isNilConst(v) }
+
+// mayBeNilMessage: v (a *Message returned together with a nil error) can be nil: the constant
+// nil, or a phi / local variable one of whose sources is the constant nil and is not excluded by
+// the facts of its edge. Results of calls are taken as non-nil when they are constructors
+// (New*Message) and followed into repository functions otherwise.
+func mayBeNilMessage(v ssa.Value, at *ssa.BasicBlock, d int, seen map[ssa.Value]bool) string {
+	if v == nil || d > 5 || seen[v] {
+		return ""
+	}
+	seen[v] = true
+	if isNilConst(v) {
+		return "the message is the constant nil"
+	}
+	switch x := v.(type) {
+	case *ssa.Phi:
+		for i, e := range x.Edges {
+			if isNilConst(e) {
+				return "the message variable keeps its zero value on the path through " + x.Block().Preds[i].String()
+			}
+			if w := mayBeNilMessage(e, x.Block().Preds[i], d+1, seen); w != "" {
+				return w
+			}
+		}
+	case *ssa.UnOp:
+		if al, ok := x.X.(*ssa.Alloc); ok {
+			stores := allocStores(al)
+			if len(stores) == 0 {
+				return "the message variable is never assigned"
+			}
+			for _, st := range stores {
+				if isNilConst(st.Val) {
+					return "the message variable is assigned nil"
+				}
+			}
+		}
+	case *ssa.Extract:
+		if call, ok := x.Tuple.(*ssa.Call); ok && x.Index == 0 {
+			if h := staticCallee(call.Common()); h != nil && h.Blocks != nil && fnPkgPath(h) == pkgExSrv {
+				// a helper of the store returning (msg, err): its (nil, nil) returns, unless the
+				// caller is on the err != nil side
+				errKnownNonNil := false
+				for _, a := range factsAt(at) {
+					if a.Kind == "nil" && !a.Pos {
+						if e2, ok := a.X.(*ssa.Extract); ok && e2.Tuple == ssa.Value(call) {
+							errKnownNonNil = true
+						}
+					}
+				}
+				if errKnownNonNil {
+					return ""
+				}
+				for _, r := range returnsOf(h) {
+					if len(r.Results) == 2 && isNilConst(retOperand(r, 1)) {
+						if w := mayBeNilMessage(retOperand(r, 0), r.Block(), d+1, seen); w != "" {
+							return w + " in " + fnName(h)
+						}
+					}
+				}
+			}
+		}
+	}
+	return ""
 }
